@@ -301,7 +301,113 @@ def rule_drop_is_error(ctx):
     ctx.floor(R, "error producers", n, 12)
 
 
+def rule_version_gate(ctx):
+    R = "C02.8"
+    ctx.rule(R, "a file is parsed without a version error exactly when its pragma's major version equals the supported one and its (minor, patch) is at most the supported one - decided by evaluating the gate over all 27 orderings of the three components")
+    fn = find_fn(LIB, "check_file_compiler_version")
+    if fn is None:
+        return ctx.missing(R, "check_file_compiler_version")
+    from astlib import simplify_body
+    import itertools
+
+    import sgrep
+
+    pv = sgrep.params(fn)
+    if len(pv) < 4:
+        return ctx.missing(R, "check_file_compiler_version/parameters")
+    REQ, CMP = pv[2], pv[3]
+    body = simplify_body(fn["body"])
+
+    class Unknown(Exception):
+        pass
+
+    def comp(e):
+        """(side, index) of `required_version.i` / `compiler_version.i`, or ('tuple', [..]) for tuples / whole versions"""
+        e = strip(e)
+        if e["k"] == "Field" and e["member"].isdigit() and strip(e["base"])["k"] == "Path" and strip(e["base"])["path"] in (REQ, CMP):
+            return (strip(e["base"])["path"], int(e["member"]))
+        if e["k"] == "Path" and e["path"] in (REQ, CMP):
+            return ("tuple", [(e["path"], 0), (e["path"], 1), (e["path"], 2)])
+        if e["k"] == "Tuple":
+            return ("tuple", [comp(x) for x in e["elems"]])
+        raise Unknown(render(e))
+
+    def cmp_scalar(a, b, rel):
+        # value of (a ? b) as -1/0/1 under the component relations rel[i] = sign(required.i - compiler.i)
+        if a[0] == "tuple" or b[0] == "tuple":
+            la = a[1] if a[0] == "tuple" else [a]
+            lb = b[1] if b[0] == "tuple" else [b]
+            if len(la) != len(lb):
+                raise Unknown("tuple arity")
+            for x, y in zip(la, lb):
+                c = cmp_scalar(x, y, rel)
+                if c != 0:
+                    return c
+            return 0
+        if a[1] != b[1]:
+            raise Unknown("comparison across components")
+        if a[0] == b[0]:
+            return 0
+        return rel[a[1]] if a[0] == REQ else -rel[a[1]]
+
+    def ev(e, rel):
+        e = strip(e)
+        if e["k"] == "Unary" and e["op"] == "!":
+            return not ev(e["e"], rel)
+        if e["k"] == "Binary" and e["op"] == "&&":
+            return ev(e["l"], rel) and ev(e["r"], rel)
+        if e["k"] == "Binary" and e["op"] == "||":
+            return ev(e["l"], rel) or ev(e["r"], rel)
+        if e["k"] == "Binary" and e["op"] in ("==", "!=", "<", "<=", ">", ">="):
+            c = cmp_scalar(comp(e["l"]), comp(e["r"]), rel)
+            return {"==": c == 0, "!=": c != 0, "<": c < 0, "<=": c <= 0, ">": c > 0, ">=": c >= 0}[e["op"]]
+        if e["k"] == "Lit" and e.get("lit") == "bool":
+            return bool(e["value"])
+        raise Unknown(render(e)[:80])
+
+    def holds(f, rel):
+        if f[0] == "if":
+            return ev(f[1], rel) == f[2]
+        if f[0] == "notall":
+            return not all(holds(g, rel) for g in f[1])
+        if f[0] == "iflet":
+            # `let Some(v) = required_version`: the pragma is present (the case decided here)
+            t = render(f[1]).replace(" ", "")
+            if t.startswith("Some("):
+                return f[3]
+            if t == "None":
+                return not f[3]
+            raise Unknown(fact_str(f))
+        if f[0] == "arm":
+            t = render(f[2]).replace(" ", "")
+            if t.startswith("Some("):
+                return True
+            if t in ("None", "_"):
+                return False
+            raise Unknown(fact_str(f))
+        raise Unknown(fact_str(f))
+
+    wrong = []
+    try:
+        for rel in itertools.product((-1, 0, 1), repeat=3):
+            outcome = None
+            for conds, atoms, ex in enumerate_paths(body):
+                if all(holds(f, rel) for f in conds):
+                    last_ = atoms[-1] if atoms else None
+                    v = last_["e"] if last_ is not None and last_.get("k") == "Return" else last_
+                    t = render(strip(v)).replace(" ", "") if v is not None else ""
+                    outcome = "Ok" if t.startswith("Ok(") else ("Err" if t.startswith("Err(") else "?")
+                    break
+            want = "Ok" if (rel[0] == 0 and (rel[1] < 0 or (rel[1] == 0 and rel[2] <= 0))) else "Err"
+            if outcome != want:
+                wrong.append("%s -> %s (expected %s)" % (rel, outcome, want))
+        ctx.check(R, "check_file_compiler_version/gate", not wrong, "orderings (major, minor, patch of the pragma against the supported version) decided wrongly: %s" % wrong[:6], site(LIB, fn))
+    except Unknown as u:
+        ctx.missing(R, "check_file_compiler_version/gate", "cannot evaluate the version test: %s" % u)
+
+
 def run(ctx):
+    rule_version_gate(ctx)
     rule_labels(ctx)
     rule_drop_is_error(ctx)
     rule_error_path(ctx)
@@ -309,3 +415,4 @@ def run(ctx):
     rule_desugar(ctx)
     rule_tables(ctx)
     c03.rule_exit_status(ctx, "C02.6")
+    ctx.include("C02.9", "prerequisite shared with C03.1: the cached reports of a definition (including the error of a failed lifting) are drained after they were produced and written unconditionally - an early return before the write drops them silently", c03.rule_drain)
